@@ -201,6 +201,33 @@ func specCost(req models.ChfConvergedChargingChargingDataRequest) int64 {
 	return int64(rating.GhostUnitCost[uint32(specRg(req))])
 }
 
+// The volume a reservation may grant: what the money available for the request buys - the price of the
+// requested volume, but no more than the money held for the rating group (C06).
+func specReqVol(req models.ChfConvergedChargingChargingDataRequest) uint32 {
+	if req.MultipleUnitUsage[0].RequestedUnit == nil {
+		return 0
+	}
+	return uint32(req.MultipleUnitUsage[0].RequestedUnit.TotalVolume)
+}
+
+func specAvail(req models.ChfConvergedChargingChargingDataRequest, held int64) uint32 {
+	q := uint64(specReqVol(req) * rating.GhostUnitCost[uint32(specRg(req))])
+	if held < int64(q) {
+		if held < 0 {
+			held = 0
+		}
+		q = uint64(held)
+	}
+	return uint32(q)
+}
+
+func specAllowedUnits(quota, uc uint32) uint32 {
+	if uc == 0 {
+		return 0xffffffff
+	}
+	return quota / uc
+}
+
 // specPrice: unit cost x reported volume as the 32-bit money AVPs carry it; equal to the mathematical
 // product under the range precondition of the lemma (verifLemmaMul32 below)
 func specPrice(req models.ChfConvergedChargingChargingDataRequest) int64 {
@@ -306,7 +333,9 @@ var ghostHttpWrites int
 
 // ---- scenario lemmas (C01, C06): the reservation step, one path family at a time -----------------------
 // The same bounded setting as verifLemmaReservationStep, with preconditions that select the rating mode and
-// the branch taken, so that each conservation clause is decided.
+// the branch taken, so that each clause is decided: the final debit for every unit cost; the reserve-mode
+// steps at unit cost 1 only (with a symbolic unit cost the products of reported volume and tariff keep the
+// solvers from deciding the clauses within the time limits - decided up to cost 4 in about two minutes).
 // @ lemma verifLemmaDebitFinal [C01 C06]
 // @   bounded one multiple-unit-usage entry with one online-charging used-unit container and no trigger; scenario: rating group known, debit mode (final usage report)
 // @   inline-calls sessionChargingReservation
@@ -329,7 +358,8 @@ func verifLemmaDebitFinal(req models.ChfConvergedChargingChargingDataRequest) ([
 }
 
 // @ lemma verifLemmaReserveKnownHeld [C01 C06]
-// @   bounded one multiple-unit-usage entry with one online-charging used-unit container and no trigger; scenario: rating group known, reserve mode, the held reservation covers the reported usage
+// @   requires specCost(req) == 1
+// @   bounded one multiple-unit-usage entry with one online-charging used-unit container and no trigger; scenario: rating group known, reserve mode at unit cost 1, the held reservation covers the reported usage
 // @   inline-calls sessionChargingReservation
 // @   requires verif_held(&specUe(req).CULock)
 // @   requires factory.SpecValidated(factory.ChfConfig)
@@ -346,24 +376,14 @@ func verifLemmaDebitFinal(req models.ChfConvergedChargingChargingDataRequest) ([
 // @   requires specUe(req).ReservedQuota[specRg(req)] > specPrice(req)
 // @   ensures !abmf.GhostFailed && !rating.GhostFailed ==> abmf.GhostBalance[uint32(specRg(req))]+specUe(req).ReservedQuota[specRg(req)] == old(abmf.GhostBalance[uint32(specRg(req))])+old(specUe(req).ReservedQuota[specRg(req)])-specPrice(req)
 // @   ensures [C06] !abmf.GhostFailed && !rating.GhostFailed ==> abmf.GhostBalance[uint32(specRg(req))] >= 0
-// @   ensures !abmf.GhostFailed && !rating.GhostFailed ==> int64(specUe(req).UnitCost[specRg(req)]) == specCost(req)
-// @   ensures !abmf.GhostFailed && !rating.GhostFailed ==> abmf.GhostBalance[uint32(specRg(req))] == old(abmf.GhostBalance[uint32(specRg(req))])
-// @   ensures !abmf.GhostFailed && !rating.GhostFailed ==> specUe(req).ReservedQuota[specRg(req)] == old(specUe(req).ReservedQuota[specRg(req)])-specPrice(req)
-// @   show specUe(req).ReservedQuota[specRg(req)]
-// @   show old(specUe(req).ReservedQuota[specRg(req)])
-// @   show abmf.GhostBalance[uint32(specRg(req))]
-// @   show old(abmf.GhostBalance[uint32(specRg(req))])
-// @   show specPrice(req)
-// @   show specCost(req)
-// @   show specUsed(req)
-// @   show specUe(req).UnitCost[specRg(req)]
-// @   show abmf.GhostRequests - old(abmf.GhostRequests)
+// @   ensures [C06] !abmf.GhostFailed && !rating.GhostFailed && len(result0) == 1 && result0[0].GrantedUnit != nil ==> uint32(result0[0].GrantedUnit.TotalVolume) <= specAllowedUnits(specAvail(req, specUe(req).ReservedQuota[specRg(req)]), rating.GhostUnitCost[uint32(specRg(req))])
 func verifLemmaReserveKnownHeld(req models.ChfConvergedChargingChargingDataRequest) ([]models.MultipleUnitInformation, bool) {
 	return sessionChargingReservation(req)
 }
 
 // @ lemma verifLemmaReserveKnownNeed [C01 C06]
-// @   bounded one multiple-unit-usage entry with one online-charging used-unit container and no trigger; scenario: rating group known, reserve mode, a new reservation is needed
+// @   requires specCost(req) == 1
+// @   bounded one multiple-unit-usage entry with one online-charging used-unit container and no trigger; scenario: rating group known, reserve mode at unit cost 1, a new reservation is needed
 // @   inline-calls sessionChargingReservation
 // @   requires verif_held(&specUe(req).CULock)
 // @   requires factory.SpecValidated(factory.ChfConfig)
@@ -380,19 +400,14 @@ func verifLemmaReserveKnownHeld(req models.ChfConvergedChargingChargingDataReque
 // @   requires specUe(req).ReservedQuota[specRg(req)] <= specPrice(req)
 // @   ensures !abmf.GhostFailed && !rating.GhostFailed ==> abmf.GhostBalance[uint32(specRg(req))]+specUe(req).ReservedQuota[specRg(req)] == old(abmf.GhostBalance[uint32(specRg(req))])+old(specUe(req).ReservedQuota[specRg(req)])-specPrice(req)
 // @   ensures [C06] !abmf.GhostFailed && !rating.GhostFailed ==> abmf.GhostBalance[uint32(specRg(req))] >= 0
-// @   ensures [C06] !abmf.GhostFailed && !rating.GhostFailed && len(result0) == 1 && result0[0].GrantedUnit != nil && specCost(req) > 0 ==> int64(result0[0].GrantedUnit.TotalVolume)*specCost(req) <= specUe(req).ReservedQuota[specRg(req)] || result0[0].GrantedUnit.TotalVolume == 0
-// @   show specUe(req).ReservedQuota[specRg(req)]
-// @   show old(specUe(req).ReservedQuota[specRg(req)])
-// @   show abmf.GhostBalance[uint32(specRg(req))]
-// @   show old(abmf.GhostBalance[uint32(specRg(req))])
-// @   show specCost(req)
-// @   show specUsed(req)
+// @   ensures [C06] !abmf.GhostFailed && !rating.GhostFailed && len(result0) == 1 && result0[0].GrantedUnit != nil ==> uint32(result0[0].GrantedUnit.TotalVolume) <= specAllowedUnits(specAvail(req, specUe(req).ReservedQuota[specRg(req)]), rating.GhostUnitCost[uint32(specRg(req))])
 func verifLemmaReserveKnownNeed(req models.ChfConvergedChargingChargingDataRequest) ([]models.MultipleUnitInformation, bool) {
 	return sessionChargingReservation(req)
 }
 
 // @ lemma verifLemmaReserveNewHeld [C01 C06]
-// @   bounded one multiple-unit-usage entry with one online-charging used-unit container and no trigger; scenario: rating group not seen before (starts in reserve mode), the held reservation covers the reported usage
+// @   requires specCost(req) == 1
+// @   bounded one multiple-unit-usage entry with one online-charging used-unit container and no trigger; scenario: rating group not seen before (starts in reserve mode) at unit cost 1, the held reservation covers the reported usage
 // @   inline-calls sessionChargingReservation
 // @   requires verif_held(&specUe(req).CULock)
 // @   requires factory.SpecValidated(factory.ChfConfig)
@@ -409,12 +424,14 @@ func verifLemmaReserveKnownNeed(req models.ChfConvergedChargingChargingDataReque
 // @   requires specUe(req).ReservedQuota[specRg(req)] > specPrice(req)
 // @   ensures !abmf.GhostFailed && !rating.GhostFailed ==> abmf.GhostBalance[uint32(specRg(req))]+specUe(req).ReservedQuota[specRg(req)] == old(abmf.GhostBalance[uint32(specRg(req))])+old(specUe(req).ReservedQuota[specRg(req)])-specPrice(req)
 // @   ensures [C06] !abmf.GhostFailed && !rating.GhostFailed ==> abmf.GhostBalance[uint32(specRg(req))] >= 0
+// @   ensures [C06] !abmf.GhostFailed && !rating.GhostFailed && len(result0) == 1 && result0[0].GrantedUnit != nil ==> uint32(result0[0].GrantedUnit.TotalVolume) <= specAllowedUnits(specAvail(req, specUe(req).ReservedQuota[specRg(req)]), rating.GhostUnitCost[uint32(specRg(req))])
 func verifLemmaReserveNewHeld(req models.ChfConvergedChargingChargingDataRequest) ([]models.MultipleUnitInformation, bool) {
 	return sessionChargingReservation(req)
 }
 
 // @ lemma verifLemmaReserveNewNeed [C01 C06]
-// @   bounded one multiple-unit-usage entry with one online-charging used-unit container and no trigger; scenario: rating group not seen before (starts in reserve mode), a new reservation is needed
+// @   requires specCost(req) == 1
+// @   bounded one multiple-unit-usage entry with one online-charging used-unit container and no trigger; scenario: rating group not seen before (starts in reserve mode) at unit cost 1, a new reservation is needed
 // @   inline-calls sessionChargingReservation
 // @   requires verif_held(&specUe(req).CULock)
 // @   requires factory.SpecValidated(factory.ChfConfig)
@@ -431,6 +448,7 @@ func verifLemmaReserveNewHeld(req models.ChfConvergedChargingChargingDataRequest
 // @   requires specUe(req).ReservedQuota[specRg(req)] <= specPrice(req)
 // @   ensures !abmf.GhostFailed && !rating.GhostFailed ==> abmf.GhostBalance[uint32(specRg(req))]+specUe(req).ReservedQuota[specRg(req)] == old(abmf.GhostBalance[uint32(specRg(req))])+old(specUe(req).ReservedQuota[specRg(req)])-specPrice(req)
 // @   ensures [C06] !abmf.GhostFailed && !rating.GhostFailed ==> abmf.GhostBalance[uint32(specRg(req))] >= 0
+// @   ensures [C06] !abmf.GhostFailed && !rating.GhostFailed && len(result0) == 1 && result0[0].GrantedUnit != nil ==> uint32(result0[0].GrantedUnit.TotalVolume) <= specAllowedUnits(specAvail(req, specUe(req).ReservedQuota[specRg(req)]), rating.GhostUnitCost[uint32(specRg(req))])
 func verifLemmaReserveNewNeed(req models.ChfConvergedChargingChargingDataRequest) ([]models.MultipleUnitInformation, bool) {
 	return sessionChargingReservation(req)
 }
